@@ -11,3 +11,6 @@ open BHS.Props.C07
 #print axioms C07_checkpoint_advance
 #print axioms C07_next_checkpoint
 #print axioms C07_match_means_match
+#print axioms C07_exp_forbidden
+#print axioms C07_exp_checkpoint_mismatch
+#print axioms C07_exp_silent_after
